@@ -500,10 +500,14 @@ def check_counts(prop, tier):
                     if rule in ('meek', 'warren') and opts.get('arithmetic') == 'rational':
                         skipped['budget (meek/warren rational: not explored)'] += 1
                         continue
-                    # a busy machine is not a hanging count: only a count that also exceeds a much larger budget is reported
-                    T = drive.run_count(blt, opts, lowprec=lp, iters=(prop == 'C08'), budget=budget * 12,
-                                        want_ballots=(prop in ('C02', 'C06', 'C01')), denote=pr)
-                    skipped['first attempt exceeded the time budget (re-run with 12x)'] += 1
+                    # a busy machine is not a hanging count: the first overruns of a run are repeated with a much larger budget;
+                    # once one of them is confirmed (the count really does not end) later overruns are reported at once
+                    if skipped['time budget overrun confirmed with 12x the budget'] == 0:
+                        T = drive.run_count(blt, opts, lowprec=lp, iters=(prop == 'C08'), budget=budget * 12,
+                                            want_ballots=(prop in ('C02', 'C06', 'C01')), denote=pr)
+                        skipped['first attempt exceeded the time budget (re-run with 12x)'] += 1
+                        if T['outcome'] == 'budget':
+                            skipped['time budget overrun confirmed with 12x the budget'] += 1
                 Nt = drive.to_native(T)
                 if Nt is None:
                     skipped['not encodable in 32-bit integers (%s %s)' % (rule, T.get('kind'))] += 1
